@@ -29,6 +29,12 @@ class C06(Check):
             "(one per step, value start+i*step, then the following line's record), one step more must be refused "
             "(C06/generate/limits); model cases 'range' (range parser), 'genvalues' (ZoneSpec gen_values: count, "
             "first, last) and 'parse' (whole parser, ranges of up to 3 records and refused ones); "
+            "keyword sweep: every type mnemonic of StringToType, every class mnemonic, TYPEnnn/CLASSnnn and the four "
+            "directives in every case pattern (all 2^n up to 7 letters, else upper/lower/one letter flipped/"
+            "alternating/random) in the type column (with RDATA of a generated record, and at the end of the line), "
+            "the class column, NSEC/NSEC3/CSYNC type lists, RRSIG type covered, $GENERATE templates and directive "
+            "lines: the same record whatever the case (C06/keyword-case/*), lower-case spellings also as lex and "
+            "parse model cases; "
             "120 $INCLUDE scenarios (before / file with optional origin argument / after, "
             "FS and no FS) against before ++ denote(file) ++ after; TTL texts and name completion against the "
             "library helpers. Model cases: the Coq denote on every abstract zone (case 'denote') must print the Go "
